@@ -999,6 +999,8 @@ pub struct MpcMsg {
 pub enum MpcMsgError {
     #[error("polytune engine is unreachable")]
     Unreachable,
+    #[error("message from unknown party {0} (or before a policy has been scheduled)")]
+    UnknownParty(usize),
 }
 
 impl<B, C> PolicyState<B, C>
@@ -1008,7 +1010,13 @@ where
 {
     #[tracing::instrument(level = Level::TRACE, skip(self, ret))]
     async fn msg(&self, mpc_msg: MpcMsg, ret: Ret<MpcMsgError>) -> ControlFlow<()> {
-        match self.channel_senders[mpc_msg.from].send(mpc_msg.data).await {
+        let Some(sender) = self.channel_senders.get(mpc_msg.from) else {
+            // out-of-range sender index, or no policy scheduled yet: reject the message but
+            // keep the state machine running
+            ret_err(ret, MpcMsgError::UnknownParty(mpc_msg.from));
+            return ControlFlow::Continue(());
+        };
+        match sender.send(mpc_msg.data).await {
             Ok(_) => {
                 let _ = ret.send(Ok(()));
                 ControlFlow::Continue(())
